@@ -112,6 +112,13 @@ def gen(rng):
         pre.append(mon_decl)
     pre.append("count = 0")
     pre.append("acc = 1")
+    if rng.random() < 0.6:
+        pre.append(f"base = {rng.randint(1, 5)}")
+        pre.append(f"base = base + {rng.randint(2, 6)}")
+        pre.append("ta, tb = base + 1, base * 2")
+        pre.append("mon.write(f\"t={ta},{tb}\")")
+        pre.append("tc = base + 3")
+        pre.append("mon.write(tc)")
     # pre-loop statements with markers and actions
     for _ in range(rng.randint(1, 5)):
         pre.append(marker("pre"))
@@ -123,6 +130,13 @@ def gen(rng):
     body = []
     if has_main:
         body += loop_decls
+        redo = [d for d in devices if d["kind"] == "led" and d["where"] == "pre"]
+        if redo and pins and rng.random() < 0.3:
+            # the same name re-bound to a Led on another pin at the top of the loop body
+            newpin = pins.pop()
+            body.append(f"{redo[0]['name']} = Led({newpin})")
+            redo[0]["where"] = "loop"  # not comparable with CPython any more (fresh object per pass)
+            redo[0]["pins"] = redo[0]["pins"] + [newpin]
         body.append("count += 1")
         body.append("acc = acc + count")
         body.append("mon.write(f\"c={count} a={acc}\")")
@@ -147,7 +161,9 @@ def gen(rng):
             tapes["A"][str(d["pins"][0])] = [100, 200, 300, 400, 500, 600]
         if d["kind"] == "us":
             tapes["P"][str(d["pins"][1])] = [580, 1160, 0, 0, 0, 2000, 583]
-    return "\n".join(L) + "\n", {"pre_ids": pre_ids, "loop_ids": loop_ids, "devices": devices, "has_main": has_main}, tapes
+    animated = any(".animate(" in x for x in pre)
+    return "\n".join(L) + "\n", {"pre_ids": pre_ids, "loop_ids": loop_ids, "devices": devices, "has_main": has_main,
+                                 "animated_in_setup": animated and has_main}, tapes
 
 
 USE_KINDS = {"DW", "AW", "DR", "AR", "TONE", "NOTONE", "PULSE"}
@@ -226,6 +242,10 @@ def monitor(events, meta, passes):
         leaked = [n for n in got if n in pre_ids]
         if leaked:
             problems.append(("prologue-in-loop", f"pre-loop statements {leaked} executed again in pass {k}"))
+    # ---- LCD animation tick: an animation started in setup() is advanced in the first pass (its first tick is never gated)
+    if meta.get("animated_in_setup") and passes >= 1:
+        if not any(kind == "LCD" and f[1] == "W" for kind, f in pass_events.get(0, [])):
+            problems.append(("lcd-tick-missing", "an LCD animation was started in setup() but loop() pass 0 contains no LCD tick write"))
     # ---- button poll: exactly one read per pass, first event of the pass
     for pin, d in poll_pins.items():
         for k in range(passes):
